@@ -46,22 +46,23 @@ type Distribution struct {
 
 // Summary is what -mode=batch writes to -out.
 type Summary struct {
-	Prop        string         `json:"prop"`
-	Tier        string         `json:"tier"`
-	Seed        uint64         `json:"seed"`
-	Generated   int            `json:"generated"`
-	Evaluations int            `json:"evaluations"`
-	DistinctNT  int            `json:"distinct_nontrivial"`
-	Rule        string         `json:"rule"`
-	Samples     []*History     `json:"samples"`
-	Dist        Distribution   `json:"distribution"`
-	Failures    []FailRec      `json:"failures"`
-	Signatures  map[string]int `json:"signatures"`
-	FailingHist int            `json:"failing_histories"`
-	Restarts    int            `json:"child_restarts"`
-	WallS       float64        `json:"wall_s"`
-	PerSecond   float64        `json:"histories_per_s"`
-	YieldResume []yrRow        `json:"yield_resume"`
+	Prop          string         `json:"prop"`
+	Tier          string         `json:"tier"`
+	Seed          uint64         `json:"seed"`
+	Generated     int            `json:"generated"`
+	Evaluations   int            `json:"evaluations"`
+	DistinctNT    int            `json:"distinct_nontrivial"`
+	Rule          string         `json:"rule"`
+	Samples       []*History     `json:"samples"`
+	Dist          Distribution   `json:"distribution"`
+	Failures      []FailRec      `json:"failures"`
+	Signatures    map[string]int `json:"signatures"`
+	FailingHist   int            `json:"failing_histories"`
+	Restarts      int            `json:"child_restarts"`
+	WallS         float64        `json:"wall_s"`
+	PerSecond     float64        `json:"histories_per_s"`
+	YieldResume   []yrRow        `json:"yield_resume"`
+	CancelStalled []csRow        `json:"cancel_stalled"`
 }
 
 const (
@@ -309,6 +310,9 @@ func runBatch(cfg *batchCfg) *Summary {
 		defer mu.Unlock()
 		sum.Evaluations++
 		h, res := oc.h, oc.res
+		if res.CancelStalled != nil {
+			sum.CancelStalled = append(sum.CancelStalled, *res.CancelStalled)
+		}
 		if res.YieldResume != nil {
 			sum.YieldResume = append(sum.YieldResume, *res.YieldResume)
 		}
